@@ -214,6 +214,8 @@ class Engine:
             return [(env, pc)]
         if isinstance(s, ast.Pass):
             return [(env, pc)]
+        if isinstance(s, (ast.Import, ast.ImportFrom)):
+            return [(env, pc)]  # a local import only binds names; callees are resolved by name through their contracts
         if isinstance(s, ast.FunctionDef):
             return [(env, pc)]  # nested helper: verified on its own, seen here only through its contract
         if isinstance(s, ast.Assign):
